@@ -185,3 +185,109 @@ def srq_replay(walk_actions, states):
     if st.k != len(walk_actions):
         return {"outcome": "short", "k": st.k}
     return None
+
+
+# ----------------------------------------------------------------------------- DelayedQueue (C17)
+
+DELAY = 2.0
+
+
+def _t(s):
+    v = s.now - detsched.T0
+    assert abs(v - round(v)) < 1e-9, v
+    return int(round(v))
+
+
+def dq_program(params):
+    """params: {"threads": {"name": [op, ...]}, "gets": n, "clock": k}
+    op: ["put", el, delayed] | ["remove", el] | ["close"] | ["sleep", d]
+    The consumer thread calls get() up to `gets` times (stops at the end marker).  A clock thread, if asked
+    for, advances virtual time by 1 up to k times at scheduler-chosen moments (time passing while others run)."""
+    w = loader.load()
+    DQ = w.mod("utils.delayed_queue").DelayedQueue
+    detsched.install_yield_attr(DQ, "_closed")
+    th = w.shims["threading"]
+    tm = w.shims["time"]
+    threads = params["threads"]
+    gets = params.get("gets", 3)
+    clock = params.get("clock", 0)
+
+    def program(s):
+        q = DQ(DELAY)
+        elems = {}
+
+        def el(k):
+            if k not in elems:
+                elems[k] = ("elem", k)
+            return elems[k]
+
+        def worker(ops):
+            for op in ops:
+                if op[0] == "put":
+                    s.log("call", op="put", el=op[1], d=bool(op[2]))
+                    q.put(el(op[1]), delay=bool(op[2]))
+                    s.log("ret", op="put")
+                elif op[0] == "remove":
+                    target = el(op[1])
+                    s.log("call", op="remove", el=op[1])
+                    r = q.remove(lambda x: x is target)
+                    s.log("ret", op="remove", res=0 if r is None else r[1])
+                elif op[0] == "close":
+                    s.log("call", op="close")
+                    q.close()
+                    s.log("ret", op="close")
+                elif op[0] == "sleep":
+                    tm.sleep(op[1])
+
+        def consumer():
+            for _ in range(gets):
+                s.log("call", op="get")
+                r = q.get()
+                s.log("ret", op="get", res=0 if r is None else r[1])
+                if r is None:
+                    break
+
+        def ticker():
+            for _ in range(clock):
+                s.yield_("clock")
+                s.advance(1.0)
+
+        ts = [th.Thread(target=worker, args=(ops,), name=n) for n, ops in sorted(threads.items())]
+        ts.append(th.Thread(target=consumer, name="cons"))
+        if clock:
+            ts.append(th.Thread(target=ticker, name="clock"))
+        for t in ts:
+            t.start()
+        for t in ts:
+            t.join()
+        return {}
+
+    def post(s):
+        out = []
+        for e in s.trace:
+            if e["e"] in ("call", "ret"):
+                d = {k: v for k, v in e.items() if k not in ("i", "now")}
+                d["now"] = int(round(e["now"] - detsched.T0))
+                out.append(d)
+            elif e["e"] == "tick":
+                out.append({"t": "clock", "e": "tick", "op": "tick", "now": int(round(e["now"] - detsched.T0)),
+                            "adv": e.get("src") == "adv"})
+            elif e["e"] == "deadlock":
+                out.append({"t": "sched", "e": "deadlock", "op": "deadlock"})
+        return out
+
+    def wrapped(s):
+        try:
+            program(s)
+        except detsched.Deadlock:
+            return {"trace": post(s) + [{"t": "sched", "e": "deadlock", "op": "deadlock"}], "deadlock": True}
+        return {"trace": post(s)}
+
+    return wrapped
+
+
+def dq_random(params):
+    """Random program derived from params['seed'] (the schedule is seeded with the same number by explore.sample)."""
+    from checks import c17
+
+    return dq_program(c17.random_program(params["seed"]))
